@@ -128,3 +128,14 @@ prop('C11', 'p32', 'exploration',
      T(4, 700, 16, 10000),
      'property-based differential testing of n-ary aggregates against a model fold, all worker counts per case',
      'generated-input search with an independent model as oracle', 'trusted: interval-set model', COMMON_ASSUME)
+
+prop('C10', 'pser', 'fault_enumeration',
+     'per rapid-generated valid base stream (<=10 chunks, every legal encoder choice incl. non-minimal run chunks): (1) the stream through ReadFrom/FromBuffer/FromUnsafeBytes/UnmarshalBinary/FromBase64; (2) EVERY proper prefix when the stream is <=2048 bytes (else every section boundary +-2 and 256 random cuts) through all five, each of which must return an error; '
+     '(3) a catalogue of ~45 single-field corruptions derived from the negation of each well-formedness rule (cookie, counts up to 2^32-1, run flags, key order/duplicates, cardinality fields incl. the 4095/4096 threshold, offsets, run count/overlap/adjacent/unsorted/duplicate/wrapping runs, unsorted/duplicate array values, bitmap popcount mismatch, random header/any byte) through all five; '
+     '(4) the frozen layout: every header/typecode/count/key-table corruption, truncation and extension, type codes that contradict the cardinality, and the 4095/4096/4097 threshold with either type code, through FrozenView; (5) cross-format bytes and noise. Zero-copy inputs sit flush against PROT_NONE guard pages in read-only memory; a panic or fault is a violation. '
+     'Whenever a decode succeeds AND Validate()==nil the bitmap goes through a battery (ToArray strictly increasing and inside each chunk\'s range, queries, iterators, Ranges, And/Or/Xor/AndNot static and in-place with a valid partner vs the model, ToBytes round trip). MustReadFrom is compared with ReadFrom+Validate on the same inputs. '
+     'Non-trivial = base stream with >=1 chunk (the catalogue reaches the per-chunk reader loop); distinct = FNV-64 of the base stream description',
+     T(8, 120, 16, 2500),
+     'structured fault enumeration over generated valid streams (rapid) with guard pages, plus a consistency battery as oracle for accepted input',
+     'truncations exhaustive per base stream up to 2 KiB; corruption catalogue = negation of each well-formedness conjunct; no claim beyond the catalogue + generated bases',
+     'trusted: independent encoders; mmap/mprotect guard semantics; the battery uses the bitmap\'s own ToArray as reference after checking it is a strictly increasing, chunk-consistent list', SER_ASSUME, run='^TestC10')
